@@ -240,6 +240,103 @@ def count_calls(scn, binary, root, classes):
     return counts, obs, dump
 
 
+def order_run(scn, binary, root):
+    """one un-killed run under `strace -y`: the order of requests and key-file operations (main thread)"""
+    of = os.path.join(root, "order.strace")
+    key_dir, log_dir = setup_dirs(scn, os.path.join(root, "order"))
+    host = HonestHost(scn, key_dir)
+    m = mockhost.MockHost()
+    for cfg in scn["polls"]:
+        m.release(host.step(dict(cfg)))
+    k = len(scn["polls"])
+    wrapper = ["strace", "-f", "-y", "-s", "160", "-o", of, "-e", "trace=openat,write,read,rename,statx,writev"] + scn.get("strace_extra", [])
+    drv = kkdrv.Driver(binary, wrapper=wrapper)
+    try:
+        drv.cmd({"cmd": "start", "base_url": m.base_url, "key_dir": key_dir, "log_dir": log_dir, "interval_ms": 10})
+        if not m.wait_status(k + 1, timeout=60):
+            raise RuntimeError("order run of %s did not finish" % scn["name"])
+    finally:
+        drv.close()
+        m.close()
+    # merge <unfinished ...> / <... resumed> pairs per thread
+    pending, lines = {}, []
+    for raw in open(of, errors="replace"):
+        mm = re.match(r"^(\d+)\s+(.*)$", raw.rstrip("\n"))
+        if not mm:
+            continue
+        tid, rest = mm.group(1), mm.group(2)
+        if rest.endswith("<unfinished ...>"):
+            pending[tid] = rest[:-len("<unfinished ...>")]
+            continue
+        r2 = re.match(r"^<\.\.\. \w+ resumed>(.*)$", rest)
+        if r2 and tid in pending:
+            rest = pending.pop(tid) + r2.group(1)
+        lines.append(rest)
+    ev = []
+    nstatus = 0
+    kd = re.escape(key_dir + "/")
+    for l in lines:
+        mm = re.match(r'^writev\(\d+<[^>]*>, \[\{iov_base="(GET|POST) (/secure-channel/[^ ]*) HTTP', l)
+        if mm:
+            pth = mm.group(2)
+            if pth == "/secure-channel/status":
+                nstatus += 1
+                if nstatus > k:
+                    break           # everything after the last poll (the check's own dump reads the directory)
+                ev.append([0, ""])
+            elif pth == "/secure-channel/key":
+                ev.append([3, ""])
+            else:
+                ev.append([6, pth[len("/secure-channel/key/"):-len("/key-attestation")]])
+            continue
+        mm = re.match(r'^openat\(AT_FDCWD[^,]*, "%s([^"/]+)", ([A-Z_|]+)[^)]*\) = (-?\d+)' % kd, l)
+        if mm and int(mm.group(3)) >= 0:
+            ev.append([10 if "O_CREAT" in mm.group(2) else 30, mm.group(1)])
+            continue
+        mm = re.match(r'^statx\(AT_FDCWD[^,]*, "%s([^"/]+\.key)",' % kd, l)
+        if mm:
+            ev.append([20, mm.group(1)])
+            continue
+        mm = re.match(r'^write\(\d+<%s([^>/]+)>, .* = (\d+)$' % kd, l)
+        if mm:
+            if ev and ev[-1][0] == 11 and ev[-1][1] == mm.group(1):
+                ev[-1][2] += int(mm.group(2))
+            else:
+                ev.append([11, mm.group(1), int(mm.group(2))])
+            continue
+        mm = re.match(r'^read\(\d+<%s([^>/]+)>, .* = (\d+)$' % kd, l)
+        if mm and int(mm.group(2)) > 0:
+            if ev and ev[-1][0] == 31 and ev[-1][1] == mm.group(1):
+                ev[-1][2] += int(mm.group(2))
+            else:
+                ev.append([31, mm.group(1), int(mm.group(2))])
+            continue
+        mm = re.match(r'^rename\("%s([^"/]+)", "%s([^"/]+)"\) = (-?\d+)' % (kd, kd), l)
+        if mm and int(mm.group(3)) == 0:
+            ev.append([12, mm.group(2)])
+    return ev
+
+
+def prop_order(ev):
+    """"the agent never attests a key it has not first stored and read back identically" on the observed call order"""
+    for i, e in enumerate(ev):
+        if e[0] != 6:
+            continue
+        name = e[1] + ".key"
+        ren = [j for j in range(i) if ev[j][0] == 12 and ev[j][1] == name]
+        if not ren:
+            return "the attestation for %s was sent before %s had been stored (no rename onto it)" % (e[1], name)
+        j = ren[-1]
+        written = sum(x[2] for x in ev[:j] if x[0] == 11 and x[1] == e[1] + ".tmp")
+        opened = [x for x in ev[j + 1:i] if x[0] == 30 and x[1] == name]
+        readn = sum(x[2] for x in ev[j + 1:i] if x[0] == 31 and x[1] == name)
+        if not opened or readn == 0:
+            return "the attestation for %s was sent without reading %s back after storing it" % (e[1], name)
+        if written and readn < written:
+            return "the attestation for %s was sent after reading back only %d of %d stored bytes" % (e[1], readn, written)
+    return None
+
+
 # ----------------------------------------------------------------------------------------
 # the property itself on the implementation's observed behaviour (from the property text)
 # ----------------------------------------------------------------------------------------
@@ -311,6 +408,11 @@ def coq_scenario_parts(scn, items):
 def coq_summaries(scn, items):
     paths, st, polls, r = coq_scenario_parts(scn, items)
     return "scenario_summaries %s %s kk_init %s 0" % (paths, st, polls)
+
+
+def coq_skeleton(scn, items):
+    paths, st, polls, r = coq_scenario_parts(scn, items)
+    return "scenario_skeleton %s kk_init %s" % (st, polls)
 
 
 def coq_points(scn, items, want):
@@ -404,6 +506,20 @@ def run(ctx):
     for s, r in zip(scns, sres):
         summaries[s["name"]] = [(nreq, tuple(None if l is None else l[1] for l in lens)) for (nreq, lens) in r]
     ctx.log("model: %s crash points" % sum(len(v) for v in summaries.values()))
+    kres = vplib.coq_eval(ctx, "From GPA Require Import KeyStore.", [coq_skeleton(s, items) for s in scns], shard=1, name="c08skel")
+    skeletons = {}
+    for s, r in zip(scns, kres):
+        sk = []
+        for (c, pth) in r:
+            pth = b2s(pth)
+            if c == 11:
+                if sk and sk[-1][0] == 11 and sk[-1][1] == pth:
+                    sk[-1][2] += 1
+                else:
+                    sk.append([11, pth, 1])
+            else:
+                sk.append([c, pth])
+        skeletons[s["name"]] = sk
 
     # ---------------- implementation: counting runs, then kill runs ----------------
     jobs = []
@@ -416,9 +532,32 @@ def run(ctx):
         os.makedirs(sroot, exist_ok=True)
         cres[(si, tag)] = count_calls(scns[si], binary, sroot, classes)
 
+    orders = {}
+    order_sample = None
+
+    def order_job(si):
+        sroot = os.path.join(root, "s%dord" % si)
+        os.makedirs(sroot, exist_ok=True)
+        orders[si] = order_run(scns[si], binary, sroot)
+
     from concurrent.futures import ThreadPoolExecutor
     with ThreadPoolExecutor(max_workers=8) as ex:
-        list(ex.map(count_job, [(si, FS_CLASSES, "fs") for si in range(len(scns))] + [(si, NET_CLASSES, "net") for si in range(len(scns))]))
+        f1 = [ex.submit(count_job, a) for a in [(si, FS_CLASSES, "fs") for si in range(len(scns))] + [(si, NET_CLASSES, "net") for si in range(len(scns))]]
+        f2 = [ex.submit(order_job, si) for si in range(len(scns))]
+        for f in f1 + f2:
+            f.result()
+    for si, s in enumerate(scns):
+        ev = orders[si]
+        # model order vs system-call order (opens / reads of a key file are folded into its look-up)
+        i_sk = [e for e in ev if e[0] not in (30, 31)]
+        if i_sk != skeletons[s["name"]]:
+            disagreements.append({"case": {"scenario": s["name"], "order_of_calls": True}, "model": skeletons[s["name"]], "impl": i_sk})
+        if si == 0:
+            order_sample = {"scenario": s["name"], "observed_call_order": i_sk, "model_order": skeletons[s["name"]]}
+        why = prop_order(ev)
+        if why:
+            failures.append({"case": {"scenario": s["name"], "_replay": "tools/vp check C08 (un-killed run of this scenario under strace -y)"},
+                             "why": why, "impl": ev})
     for si, s in enumerate(scns):
         c1, obs, dump = cres[(si, "fs")]
         c2, obs2, dump2 = cres[(si, "net")]
@@ -570,7 +709,7 @@ def run(ctx):
                 "crash points and the restart must do what the model predicts from it; non-trivial = distinct observed world state" % (
                     "stratified sample" if ctx.quick else "every N"),
         "exhaustive": not ctx.quick,
-        "samples": samples,
+        "samples": samples + [order_sample],
         "input_distribution": {"scenarios": len(scns), "kill_runs": n_killed, "model_crash_points": total_points,
                                "calls_on_path": {s["name"]: s["counts"] for s in scns}, "codec_cases": codec_cases,
                                "kills_with_host_latched": sum(1 for r in records if r["obs"]["latched"]),
